@@ -7,6 +7,7 @@ Model: `Karp/Model/Drain.lean` (pod predicates, `needsForceDelete`, eviction `Qu
 Spec:  `Karp/Spec/Drain.lean` (what an observer may see of one step, restated from the property text).
 -/
 import Karp.Proofs.Drain
+import Karp.Model.Rfc3339
 
 namespace Karp.C10
 open Karp.Drain Karp.Spec.Drain
@@ -64,6 +65,24 @@ theorem fact_removal_calls :
     C10Drain.evictCalls = ["Create", "SubResource", "complete", "complete"] ∧
     C10Drain.forceDeleteCalls = ["Delete", "complete", "complete"] ∧
     C10Drain.awaitDrainCalls = ["Drain", "SetTrue"] := by decide
+
+/-- the termination controller takes the node deadline from the NodeClaim's termination-timestamp annotation,
+    read as an RFC 3339 timestamp; each guarded return of `nodeTerminationTime` (no NodeClaim, no annotation,
+    unreadable annotation) hands back NO deadline, the unreadable case together with an error, and only the final
+    return hands back the parsed instant -/
+theorem fact_deadline_source :
+    C10Drain.terminationTimestampAnnotationKey = "karpenter.sh/nodeclaim-termination-timestamp" ∧
+    C10Drain.terminationTimestampLayout = "2006-01-02T15:04:05Z07:00" ∧
+    C10Drain.nodeTerminationTimeAssigns =
+      [("expirationTimeString, exists", "nodeClaim.Annotations[v1.NodeClaimTerminationTimestampAnnotationKey]"),
+       ("expirationTime, err", "time.Parse(time.RFC3339, expirationTimeString)")] ∧
+    C10Drain.nodeTerminationTimeReturns =
+      [("nodeClaim == nil", "nil", "nil"), ("!exists", "nil", "nil"), ("err != nil", "nil", "error"),
+       ("", "&expirationTime", "nil")] := by decide
+
+/-- `finalize` determines the deadline (returning its error) before it taints or drains -/
+theorem fact_deadline_before_drain :
+    C10Drain.finalizeCalls.take 2 = ["nodeTerminationTime", "Taint"] := by decide
 
 /-! ## One reconcile of the eviction queue: all queues, pods, clocks and API answers -/
 
@@ -237,17 +256,19 @@ theorem C10_histories_with_direct_adds (s : State) (hwf : WF s) (steps : List St
     allOK false s steps = true :=
   history_meets_spec false steps s hwf (fun h => by simp at h)
 
-/-- **C10_removal_traces_to_admission** — in every history of drain passes, reconciles, clock advances and pod
-    changes from a scenario's start: whenever a reconcile sends a removal request (eviction or direct delete) for
-    pod `u`, an earlier drain pass of that history handed `u` to the queue — at which moment `u` met C10_tiers
-    (lowest tier among the pods awaiting graceful eviction, or past its threshold) — and `u` has stayed queued
-    from that pass until this reconcile (so, by C10_deadline_monotone, under a deadline that only tightened). -/
+/-- **C10_removal_traces_to_admission** — in every history of drain passes (direct or driven by the termination
+    controller), reconciles, clock advances and pod changes from a scenario's start: whenever a reconcile sends a
+    removal request (eviction or direct delete) for pod `u`, an earlier drain pass of that history — under the
+    deadline `d` it was given or read off the NodeClaim — handed `u` to the queue — at which moment `u` met
+    C10_tiers (lowest tier among the pods awaiting graceful eviction, or past its threshold) — and `u` has stayed
+    queued from that pass until this reconcile (so, by C10_deadline_monotone, under a deadline that only
+    tightened). -/
 theorem C10_removal_traces_to_admission (now : Int) (ps : List Pod) (pre : List Step) (i : Nat)
     (ea : EvictAns) (da : DeleteAns) (c : Call) (hna : noAdd pre = true)
     (hc : c ∈ (stepModel (runState (initState now ps) pre) (.recon i ea da)).calls) :
-    ∃ a d b, pre = a ++ Step.drain d :: b ∧
+    ∃ a st d b, pre = a ++ st :: b ∧ passDeadline st = some d ∧
       c.uid ∈ (enqueued (livePods (runState (initState now ps) a)) d (runState (initState now ps) a).now).map (·.uid) ∧
-      queuedThroughout c.uid (nextState (runState (initState now ps) a) (.drain d)) b = true := by
+      queuedThroughout c.uid (nextState (runState (initState now ps) a) st) b = true := by
   apply queued_was_admitted c.uid pre (initState now ps) hna rfl
   generalize runState (initState now ps) pre = s at hc
   simp only [stepModel] at hc
@@ -270,6 +291,73 @@ theorem C10_removal_traces_to_admission (now : Int) (ps : List Pod) (pre : List 
         | delete u g =>
           obtain ⟨hu, d, hD, _⟩ := reconcile_delete_spec s.q w.pod s.now ea da u g hcall
           simp [Call.uid, qhas, hu, hD]
+
+/-! ## Where the node deadline comes from: the termination controller and the NodeClaim -/
+
+/-- **C10_deadline_source** — the termination controller hands `Drain` a deadline `t` exactly when the NodeClaim
+    carries a termination timestamp that reads as the instant `t`; it refuses (error) exactly when the timestamp
+    cannot be read; without a (single) NodeClaim or without the annotation it drains with no deadline. -/
+theorem C10_deadline_source (src : DeadlineSrc) :
+    (∀ t, nodeTerminationTime src = some (some t) ↔ src = .annotation (some t)) ∧
+    (nodeTerminationTime src = none ↔ src = .annotation none) ∧
+    (nodeTerminationTime src = some none ↔ (src = .noClaim ∨ src = .noAnnotation)) := by
+  cases src with
+  | noClaim => simp [nodeTerminationTime]
+  | noAnnotation => simp [nodeTerminationTime]
+  | annotation t => cases t <;> simp [nodeTerminationTime]
+
+/-- **C10_node_pass_is_drain** — a pass of the termination controller that determined the deadline `D` is exactly
+    a `Terminator.Drain` pass under `D` (so C10_tiers, C10_drain_queue, C10_drain_verdict and C10_drain_meets_spec
+    apply to it verbatim). -/
+theorem C10_node_pass_is_drain (s : State) (src : DeadlineSrc) (D : Option Int)
+    (h : nodeTerminationTime src = some D) :
+    stepModel s (.node src) = stepModel s (.drain D) ∧ nextState s (.node src) = nextState s (.drain D) := by
+  simp [nextState, stepModel, advance, h]
+
+/-- **C10_unreadable_deadline_inert** — when the NodeClaim's termination timestamp cannot be read the pass does
+    nothing at all: an error is reported, no pod is handed to the queue (under any deadline, let alone an
+    invented one), no removal request is sent, and the state is unchanged. -/
+theorem C10_unreadable_deadline_inert (s : State) :
+    stepModel s (.node (.annotation none)) = { r := "error", calls := [], items := s.q } ∧
+    nextState s (.node (.annotation none)) = s := by
+  simp [nextState, stepModel, advance, nodeTerminationTime, refusedStep]
+
+/-- **C10_node_pass_meets_spec** — every pass of the termination controller (any state, any NodeClaim shape) is one
+    the specification permits: an ordinary drain pass under the deadline the NodeClaim's timestamp denotes (or
+    under none when there knowingly is none), and a refusal or an evictions-only pass when it cannot be read. -/
+theorem C10_node_pass_meets_spec (s : State) (src : DeadlineSrc) :
+    nodePassOK (livePods s) src s.now s.q (stepModel s (.node src)).items (stepModel s (.node src)).calls
+      (stepModel s (.node src)).r = true :=
+  nodeStep_meets_spec s src
+
+/-- **C10_deadline_origin** — along every history, from a scenario's start: the deadline a pod is stored under
+    (a deadline, or "none") is one that a step of the history supplied — a direct `Queue.Add`'s, a direct drain
+    pass's, or the one a controller pass read off the NodeClaim.  No deadline is ever made up. -/
+theorem C10_deadline_origin (now : Int) (ps : List Pod) (steps : List Step) (k : Nat) (e : Option Int)
+    (h : qget (runState (initState now ps) steps).q k = some e) :
+    ∃ st ∈ steps, stepDeadline st = some e := by
+  rcases history_deadline_origin k e steps (initState now ps) h with h0 | h0
+  · simp [initState, qget_nil] at h0
+  · obtain ⟨st, hst, hd⟩ := List.mem_filterMap.mp h0
+    exact ⟨st, hst, hd⟩
+
+/-- **C10_no_invented_deadline** — in particular, in a history whose only enqueueing steps are passes of the
+    termination controller: a pod stored under the deadline `t` (the precondition of every direct delete, by
+    C10_force) implies that some pass found a NodeClaim whose termination timestamp reads as exactly `t`. -/
+theorem C10_no_invented_deadline (now : Int) (ps : List Pod) (steps : List Step) (k : Nat) (t : Int)
+    (hctl : ∀ st ∈ steps, (∀ d ps, st ≠ .add d ps) ∧ (∀ d, st ≠ .drain d))
+    (h : qget (runState (initState now ps) steps).q k = some (some t)) :
+    Step.node (.annotation (some t)) ∈ steps := by
+  obtain ⟨st, hst, hd⟩ := C10_deadline_origin now ps steps k (some t) h
+  cases st with
+  | add d ps' => exact absurd rfl ((hctl _ hst).1 d ps')
+  | drain d => exact absurd rfl ((hctl _ hst).2 d)
+  | node src =>
+    have : src = .annotation (some t) := ((C10_deadline_source src).1 t).mp (by simpa [stepDeadline, passDeadline] using hd)
+    rw [this] at hst; exact hst
+  | recon i ea da => simp [stepDeadline, passDeadline] at hd
+  | tick ns => simp [stepDeadline, passDeadline] at hd
+  | change i m => simp [stepDeadline, passDeadline] at hd
 
 /-! ## Non-vacuity: concrete scenarios that reach every branch the theorems speak about -/
 
@@ -321,5 +409,40 @@ example :
 example : noAdd [.drain (some dl), .recon 0 .tooMany .ok, .tick (71 * sec), .recon 0 .ok .gone] = true := by decide
 example : queuedThroughout 0 (nextState (initState (900 * sec) [podA, podC]) (.drain (some dl)))
     [.recon 0 .tooMany .ok, .tick (71 * sec), .drain (some (dl - sec))] = true := by decide
+
+-- a controller pass: a readable timestamp gives the deadline, exactly like a direct drain pass …
+example : stepModel (initState (900 * sec) [podA, podC]) (.node (.annotation (some dl)))
+    = { r := "waiting", calls := [], items := [(0, some dl)] } := by decide
+-- … no annotation / no NodeClaim: evictions only (no deadline stored) …
+example : (stepModel (initState (900 * sec) [podA]) (.node .noAnnotation)).items = [(0, none)] := by decide
+example : (stepModel (initState (900 * sec) [podA]) (.node .noClaim)).items = [(0, none)] := by decide
+-- … an unreadable timestamp: the pass refuses; a pod already queued keeps its deadline, nothing new is queued,
+--     and (hypothesis of C10_no_invented_deadline) the stored deadline is the one the earlier pass read
+example : (runModel (initState (900 * sec) [podA, { podP with uid := 1 }])
+      [.node (.annotation (some dl)), .node (.annotation none), .recon 1 .ok .ok]).map (fun o => (o.r, o.calls, o.items))
+    = [("waiting", [], [(0, some dl), (1, some dl)]), ("error", [], [(0, some dl), (1, some dl)]),
+       ("done", [.delete 1 100], [(0, some dl)])] := by decide
+-- the specification rejects what a pass acting under a made-up deadline (here: year 1) would be observed to do …
+example : nodePassOK [podA] (.annotation none) (900 * sec) [] [(0, some (-63000000000 * sec))] [] "waiting" = false := by decide
+-- … and accepts both a refusal and an evictions-only pass
+example : nodePassOK [podA] (.annotation none) (900 * sec) [] [] [] "error" = true := by decide
+example : nodePassOK [podA] (.annotation none) (900 * sec) [] [(0, none)] [] "waiting" = true := by decide
+
+-- RFC 3339 reading of the annotation (Unix nanoseconds): zone offsets and fractions denote the same instants …
+example : Karp.Rfc3339.parse "1970-01-01T00:00:00Z".toList = some 0 := by decide
+example : Karp.Rfc3339.parse "2027-01-15T08:00:00Z".toList = some 1800000000000000000 := by decide
+example : Karp.Rfc3339.parse "2027-01-15T10:00:00.5+02:00".toList = some 1800000000500000000 := by decide
+example : Karp.Rfc3339.parse "2027-01-15T00:30:00-07:30".toList = some 1800000000000000000 := by decide
+example : Karp.Rfc3339.parse "2024-02-29T23:59:59.123456789Z".toList = some 1709251199123456789 := by decide
+example : Karp.Rfc3339.parse "0001-01-01T00:00:00Z".toList = some (-62135596800000000000) := by decide
+-- … and everything else is not a timestamp (space for `T`, no zone, date only, Unix seconds, empty, impossible date)
+example : Karp.Rfc3339.parse "2027-01-15 08:00:00Z".toList = none := by decide
+example : Karp.Rfc3339.parse "2027-01-15T08:00:00".toList = none := by decide
+example : Karp.Rfc3339.parse "2027-01-15".toList = none := by decide
+example : Karp.Rfc3339.parse "1800000000".toList = none := by decide
+example : Karp.Rfc3339.parse "".toList = none := by decide
+example : Karp.Rfc3339.parse "2027-02-29T08:00:00Z".toList = none := by decide
+example : Karp.Rfc3339.parse "2027-01-15T24:00:00Z".toList = none := by decide
+example : Karp.Rfc3339.parse "2027-01-15T08:00:00+0200".toList = none := by decide
 
 end Karp.C10
